@@ -268,12 +268,18 @@ def run_c12(script, rng, summary):
     if rng.random() < 0.5 and real.problem.horizon is not None:
         # enumeration after an optimisation (possibly cut short): an objective restricts nothing, every valid timing
         # must still be visited
-        script = script + [{"op": "objective", "o": rng.choice([("makespan",), ("flowtime", None), ("startLatest", None),
-                                                                 ("startEarliest",), ("priorities",)])}]
+        bounded = bounded_objective_variant(script, real, rng) if rng.random() < 0.35 else None
+        if bounded is not None:
+            # an objective with declared, attainable (hence implied) bounds: the search may leave its loop on the bound
+            script = bounded
+            count(summary, "run_c12_after_optimisation_bounded_objective")
+        else:
+            script = script + [{"op": "objective", "o": rng.choice([("makespan",), ("flowtime", None), ("startLatest", None),
+                                                                     ("startEarliest",), ("priorities",)])}]
         real = pslib.Real()
         if any(r != "ok" for r in real.run(script)):
             return None
-        if rng.random() < 0.7:
+        if rng.random() < (0.7 if bounded is None else 0.3):
             cfg["max_iter"] = rng.choice([1, 2, 2, 3])
         count(summary, "run_c12_after_optimisation" + ("_max_iter" if "max_iter" in cfg else ""))
     with smrun.silent(), no_stderr():
@@ -509,6 +515,16 @@ def run_c19(script, rng, summary):
         extra = [{"op": "buffer", "name": "Bdiag", "concurrent": True, "initial": 0, "lb": 0},
                  {"op": "constraint", "c": ("unloadBuffer", t, "Bdiag", 2), "name": "pin_a"}]
         count(summary, "run_c19_concurrent_buffer_conflict")
+    if rng.random() < 0.2:
+        # a conflict between optional constraints that a force-apply rule makes mandatory: the applied optional
+        # constraints are part of the explanation
+        nc = len(real.problem.constraints)
+        extra = [{"op": "constraint", "c": ("startAt", t, 1), "name": "pin_a", "optional": True},
+                 {"op": "constraint", "c": ("startAt", t, 3), "name": "pin_b", "optional": True},
+                 {"op": "constraint", "c": ("forceApplyN", [nc, nc + 1], 2, rng.choice(["exact", "min"])), "name": "pin_c"}]
+        if real.tasks[t].optional:
+            extra.append({"op": "constraint", "c": ("forceSchedule", t, True), "name": "pin_d"})
+        count(summary, "run_c19_forced_optional_constraints_conflict")
     if rng.random() < 0.25:
         extra = []          # leave the problem as generated (usually feasible): verdict part
     script2 = [d for d in script if d["op"] != "objective"] + extra
